@@ -8,6 +8,7 @@ pub mod c09;
 pub mod c10;
 pub mod c11;
 pub mod c13;
+pub mod c14;
 pub mod c16;
 pub mod c17;
 pub mod common;
@@ -75,6 +76,7 @@ pub fn dispatch(id: &str) -> Option<(fn(Tier) -> i32, fn(&Value) -> String)> {
         "C10" => Some((c10::run, c10::replay)),
         "C11" => Some((c11::run, c11::replay)),
         "C13" => Some((c13::run, c13::replay)),
+        "C14" => Some((c14::run, c14::replay)),
         "C16" => Some((c16::run, common::replay_lockstep)),
         "C17" => Some((c17::run, c17::replay)),
         _ => None,
